@@ -85,6 +85,23 @@ def monitor(ops, outs):
     return None
 
 
+def gen_dense(rng, size, length):
+    """dense histories: only add / remove / isin / filter queries over 2-3 addresses on a small list, so that
+    slot reuse after swap-with-last removal, stale slots behind the used range and repeated lookups of one
+    address (anything a lookup cache or a 'last match' shortcut would get wrong) occur many times per session
+    (added after seeded change C26-m3 was missed by the sparse generator)"""
+    cap = size % 100
+    base = rng.randrange(1, 1 << 47) * 2
+    universe = [base + 2 * i for i in range(rng.choice([2, 3, cap + 1]))]
+    ops = ["reset %d" % size, "setconn 1", "setscan 1"]
+    for _ in range(length):
+        a = rng.choice(universe)
+        ops.append("%s %d" % (rng.choice(["add", "add", "remove", "remove", "isin", "isin", "connin", "scanin"]), a))
+        if rng.random() < 0.1:
+            ops.append("free")
+    return ops
+
+
 def enumerate_small(size, universe, depth):
     """all op sequences of `depth` ops over add/remove/isin/free for a tiny universe"""
     alphabet = ["free"] + ["%s %d" % (o, a) for o in ("add", "remove", "isin") for a in universe]
@@ -97,7 +114,7 @@ def enumerate_small(size, universe, depth):
 def run_c26(ctx, replay_path=None):
     res = Result()
     res.rule = ("sessions = reset N (N in 1,2,3,8 software list; 104,108 radio-backed list over a mock radio) followed by "
-                "random add/remove/clear/query/filter ops over a universe of N+3 addresses; each session is run on the "
+                "random add/remove/clear/query/filter ops over a universe of N+3 addresses, plus dense add/remove/query histories over 2-3 addresses on lists of 2, 3, 4 (radio-backed) and 8 entries; each session is run on the "
                 "real white_list_implementation<> and on the Lean model and compared line by line, and independently "
                 "checked against a Python set oracle; a session is non-trivial if it contains a refused add (list full), "
                 "a successful remove of a non-last entry or a filter query with the filter on; distinct = distinct op sequences")
@@ -105,11 +122,14 @@ def run_c26(ctx, replay_path=None):
     n = 4000 if ctx.thorough else 400
     for i in range(n):
         sessions.append(gen_session(ctx.rng, SIZES[i % len(SIZES)], ctx.rng.randrange(5, 60)))
+    dense_sizes = [2, 3, 8, 2, 3, 104]
+    for i in range(3000 if ctx.thorough else 300):
+        sessions.append(gen_dense(ctx.rng, dense_sizes[i % len(dense_sizes)], ctx.rng.randrange(8, 40)))
     if ctx.thorough:
         for size in (1, 2, 102 if False else 2):
             pass
-        sessions += enumerate_small(1, [2, 4], 5) + enumerate_small(2, [2, 4, 6], 4)
-        res.extra["exhaustive_small_scope"] = "all op sequences: N=1, 2 addresses, length 5; N=2, 3 addresses, length 4"
+        sessions += enumerate_small(1, [2, 4], 5) + enumerate_small(2, [2, 4, 6], 4) + enumerate_small(2, [2, 4], 6)
+        res.extra["exhaustive_small_scope"] = "all op sequences: N=1, 2 addresses, length 5; N=2, 3 addresses, length 4; N=2, 2 addresses, length 6"
     impl, model, dis = ctx.run_pair(sessions)
     for d in dis:
         ops = ctx.shrink_disagreement(sessions[d["session"]]) if len(res.disagreements) < 1 else sessions[d["session"]]
